@@ -45,6 +45,60 @@ impl std::ops::Sub<Instant> for Instant {
     }
 }
 
+impl std::ops::AddAssign<Duration> for Instant {
+    fn add_assign(&mut self, d: Duration) {
+        *self = *self + d;
+    }
+}
+
+impl std::ops::Sub<Duration> for Instant {
+    type Output = Instant;
+    fn sub(self, d: Duration) -> Instant {
+        Instant(self.0.saturating_sub(d.as_nanos().min(u64::MAX as u128) as u64))
+    }
+}
+
+impl std::ops::SubAssign<Duration> for Instant {
+    fn sub_assign(&mut self, d: Duration) {
+        *self = *self - d;
+    }
+}
+
+impl Instant {
+    pub fn checked_sub(&self, d: Duration) -> Option<Instant> {
+        self.0.checked_sub(d.as_nanos().min(u64::MAX as u128) as u64).map(Instant)
+    }
+    pub fn checked_duration_since(&self, earlier: Instant) -> Option<Duration> {
+        self.0.checked_sub(earlier.0).map(Duration::from_nanos)
+    }
+    /// std's clocks read the simulated clock on a simulated thread (monotonic base plus simulated
+    /// time), so the two kinds of instants convert through "time until / since now".
+    pub fn from_std(t: std::time::Instant) -> Instant {
+        let now_std = std::time::Instant::now();
+        let now = Instant::now();
+        if t >= now_std {
+            now + (t - now_std)
+        } else {
+            now - (now_std - t)
+        }
+    }
+    pub fn into_std(self) -> std::time::Instant {
+        let now_std = std::time::Instant::now();
+        let now = Instant::now();
+        if self >= now {
+            now_std + (self - now)
+        } else {
+            now_std.checked_sub(now - self).unwrap_or(now_std)
+        }
+    }
+}
+
+impl From<std::time::Instant> for Instant {
+    fn from(t: std::time::Instant) -> Instant {
+        Instant::from_std(t)
+    }
+}
+
 pub struct Sleep {
     deadline: u64,
     key: Option<(u64, u64)>,
